@@ -48,3 +48,28 @@ let hex_of_opt = function None -> "-" | Some l -> hex_of_bytes l
 
 let res_str (f : 'a -> string) (r : 'a res) : string =
   match r with Ok a -> f a | OOB -> "MODEL_OOB" | OutOfFuel -> "MODEL_OUTOFFUEL"
+
+(* ---- trees: tokens "N ty vs vi vd key k child..." <-> Model.node ---- *)
+let dbl_of_tok (t : string) : spec_float = if t = "nan" then S754_nan else sf_of_bits (z_of_hex t)
+let tok_of_dbl (d : spec_float) : string = match d with S754_nan -> "nan" | _ -> hex_of_z_width 16 (bits_of_sf d)
+let rec parse_node (a : string array) (pos : int ref) : node =
+  if a.(!pos) <> "N" then failwith ("bad tree token at " ^ string_of_int !pos);
+  let ty = z_of_int (int_of_string a.(!pos + 1)) in
+  let vs = opt_bytes_of_hex a.(!pos + 2) in
+  let vi = z_of_int (int_of_string a.(!pos + 3)) in
+  let vd = dbl_of_tok a.(!pos + 4) in
+  let key = opt_bytes_of_hex a.(!pos + 5) in
+  let k = int_of_string a.(!pos + 6) in
+  pos := !pos + 7;
+  let ch = ref [] in
+  for _ = 1 to k do ch := parse_node a pos :: !ch done;
+  Node (ty, vs, vi, vd, key, List.rev !ch)
+let parse_node_or_null a pos = if a.(!pos) = "NULL" then (incr pos; None) else Some (parse_node a pos)
+let rec dump_node (n : node) : string =
+  let Node (ty, vs, vi, vd, key, ch) = n in
+  String.concat " " (["N"; string_of_int (int_of_z ty); hex_of_opt vs; string_of_int (int_of_z vi); tok_of_dbl vd; hex_of_opt key;
+                      string_of_int (List.length ch)] @ List.map dump_node ch)
+let path_str (p : nat list option) : string =
+  match p with None -> "NULL" | Some l -> "P" ^ String.concat "." (List.map (fun n -> string_of_int (int_of_nat n)) l)
+let path_of_str (s : string) : nat list =
+  if s = "P" then [] else List.map (fun t -> nat_of_int (int_of_string t)) (String.split_on_char '.' (String.sub s 1 (String.length s - 1)))
